@@ -143,6 +143,10 @@ class AttrTensor(Attr[np.ndarray]):
     _attribute_proto_type = AttributeProto.TENSOR
 
     def __init__(self, value: Union[np.ndarray, _Ref[np.ndarray]], name: str):
+        if not isinstance(value, (np.ndarray, np.generic, _Ref)):
+            raise TypeError(
+                f"Unable to instantiate `{type(self).__name__}` with value of type `{type(value).__name__}`."
+            )
         super().__init__(value.copy(), name)
 
     def _to_onnx_deref(self) -> AttributeProto:
